@@ -152,6 +152,13 @@ class TrioEventLoop(EventLoop):
             True if the scope was cancelled, False if it was cancelled already
             before invoking this function
         """
+        if self._nursery is None:
+            # not running (trio's cancel scopes cannot be queried then): the task has not
+            # been started yet, so drop it from the pending ones
+            pending = [entry for entry in self._pending_tasks if entry[1] is not scope]
+            existed = len(pending) < len(self._pending_tasks)
+            self._pending_tasks[:] = pending
+            return existed
         existed = not scope.cancel_called
         scope.cancel()
         return existed
